@@ -7,9 +7,10 @@ class C02(ConnProp):
     props_file = "Properties/C02.v"
     monitor_text = ("a plugin ack is not covered by an earlier successful store commit holding that position "
                     "(or the stored position went backwards / became empty / a healthy teardown dropped an ack)")
-    rule = ("corpus/C02/*.jsonl (hand-written shapes) and schedules over Read | Ack(k) | TimerFire | Flush | "
-            "ReleaseCommit ok/fail | FailNextSet | FailNextTx | SendFail n | HoldSend | ReleaseSend | Stop | Teardown (half of the teardowns are preceded by reads beyond the last ack and a Stop; one case in "
-            "eight embeds a scripted multi-letter shape) on 1-3 sources sharing one persister (gated or self-completing commits, bundle "
+    rule = ("corpus/C02/*.jsonl (hand-written shapes) and schedules over Read | Ack(k) | TimerFire | Flush(ctx live/cancelled/expiring) | "
+            "ReleaseCommit ok/fail oldest/newest | FailNextSet | FailNextTx | SendFail n | HoldSend | ReleaseSend | Stop | Teardown(ctx live/cancelled/expiring) (half of the teardowns are preceded by reads beyond the last ack and a Stop; one case in "
+            "eight embeds a scripted multi-letter shape, a further one in nine a forced flush / teardown with a dead context "
+            "behind a parked commit with the commits then released newest first) on 1-3 sources sharing one persister (gated or self-completing commits, bundle "
             "threshold 2-5 or off, retry bound 1-3, 15% of runs with a misbehaving engine), length <= 40, drawn from "
             "one splitmix64 state; thorough adds every schedule of length <= 6 over a 9-letter alphabet on one "
             "source with gated commits, and over an 8-letter alphabet (Ack, Flush, HoldSend, ReleaseSend, Teardown, SendFail, Read, Stop) with "
